@@ -185,7 +185,7 @@ def tie(res):
     pre = ("From Coq Require Import List Bool String.\nImport ListNotations.\nOpen Scope string_scope.\n"
            "From BT Require Import Model.GenTypes Model.Skel Model.SkelTie.\nFrom BTGen Require ChanOps Dispatch Signals.\n")
     body = ["Definition msgs_recv_only_in_loop := forallb (fun o => negb (co_chan o =? \"p.msgs\") || negb (is_recv o) || (co_func o =? \"eventLoop\")) ChanOps.chanops.",
-            "Definition send_shape := match find (fun x => fst x =? \"Send\") Signals.shapes with Some (_, b) => b =? \"{ select { case <-p.ctx.Done(): case p.msgs <- msg: } }\" | None => false end.",
+            "Definition send_shape := shapes_ok_for [\"Send\"].",
             "Definition order_ok := (match Dispatch.pre_switch with [\"filter\"; \"nilcheck\"] => true | _ => false end) && "
             "(match Dispatch.post_switch with [\"handleMessages\"; \"Update\"; \"cmds<-:ctx\"; \"write(View)\"] => true | _ => false end).",
             "Definition t := (rendezvous_channels, msgs_recv_only_in_loop, send_shape, order_ok, nothing_unsupported)."]
